@@ -74,6 +74,7 @@ class Runner(object):
     def __init__(self, path, with_times=False, compression=None):
         self.path = path
         self.with_times = with_times
+        CLOCK[0] = 1000                 # Api.file_birth: the second at which the file is created
         if compression is None:
             self.f = nixio.File.open(path, nixio.FileMode.Overwrite)
         else:
@@ -917,6 +918,15 @@ class Gen(object):
                 key = ("pos", rnd.randint(-3, 3))
             else:
                 key = self.key_for(h, allow_obj=(t == "delete"))
+            if self.r.kind(h) == "Feature" and rnd.random() < 0.4:
+                # a feature can also be addressed by the id or the name of its DATA
+                try:
+                    d = self.r.obj(h).data
+                    hx = [i for i in self.live(["DataArray", "DataFrame"]) if self.r.handles[i][2] == d.id]
+                    if hx:
+                        key = ("idof", hx[0]) if rnd.random() < 0.6 else ("name", d.name)
+                except Exception:
+                    pass
             return (t, ph, c, key)
         if t in ("append",):
             owners = self.live(list(HAS_LIST))
@@ -1051,7 +1061,7 @@ class Gen(object):
         if t == "set_auto":
             return ("set_auto", rnd.random() < 0.5)
         if t == "force":
-            hs = self.live(["Block", "Group", "DataArray", "Tag", "MultiTag", "Source", "Section", "DataFrame"])
+            hs = self.live(["File", "Block", "Group", "DataArray", "Tag", "MultiTag", "Source", "Section", "DataFrame"])
             if not hs:
                 return None
             return ("force", rnd.choice(hs), rnd.random() < 0.5,
